@@ -173,6 +173,7 @@ func (r *rw) run() ([]byte, int, error) {
 		}
 		edits = append(edits, r.editsIn(d)...)
 	}
+	resets := r.globalResets()
 	if r.err != nil {
 		return nil, 0, r.err
 	}
@@ -188,7 +189,62 @@ func (r *rw) run() ([]byte, int, error) {
 	for _, k := range keep {
 		out = append(out, []byte("\nvar _ = "+k+"\n")...)
 	}
+	out = append(out, []byte(resets)...)
 	return out, r.n, nil
+}
+
+// globalResets makes every simulated run start from the package state a fresh process would have:
+// each package-level variable of the file (other than error sentinels, whose identity callers may
+// hold on to) is given its initial value again before a run. Without it a change that introduces
+// package-level state (a cache, a free list) would make runs depend on the runs before them, and a
+// violation would not replay from its own tape.
+func (r *rw) globalResets() string {
+	errType := types.Universe.Lookup("error").Type()
+	var b strings.Builder
+	for _, d := range r.file.Decls {
+		gd, ok := d.(*ast.GenDecl)
+		if !ok || gd.Tok != token.VAR {
+			continue
+		}
+		for _, sp := range gd.Specs {
+			vs := sp.(*ast.ValueSpec)
+			var names []string
+			skip := false
+			for _, id := range vs.Names {
+				if id.Name == "_" {
+					skip = true
+					break
+				}
+				obj := r.info.Defs[id]
+				if obj == nil || types.Identical(obj.Type(), errType) {
+					skip = true
+					break
+				}
+				names = append(names, id.Name)
+			}
+			if skip || len(names) == 0 {
+				continue
+			}
+			switch {
+			case len(vs.Values) > 0:
+				var vals []string
+				for _, v := range vs.Values {
+					vals = append(vals, r.text(v))
+				}
+				fmt.Fprintf(&b, "\t\t%s = %s\n", strings.Join(names, ", "), strings.Join(vals, ", "))
+			case vs.Type != nil:
+				for _, n := range names {
+					fmt.Fprintf(&b, "\t\t%s = *new(%s)\n", n, r.text(vs.Type))
+				}
+			}
+		}
+	}
+	if b.Len() == 0 {
+		return ""
+	}
+	r.usesSim = true
+	r.n++
+	return "\nfunc init() {\n\tvsim.RegisterReset(func() {\n" + b.String() + "\t})\n}\n"
 }
 
 func applyEdits(src []byte, base int, edits []edit) []byte {
